@@ -75,7 +75,7 @@ def gen_case(rng, cid, tier="quick"):
         t = "Red %d" % i
         kind = rng.random()
         if kind < 0.55:
-            target = rng.choice(art_titles + redirs) if redirs and rng.random() < 0.5 else rng.choice(art_titles)
+            target = rng.choice(redirs) if redirs and rng.random() < 0.5 else rng.choice(art_titles)
         elif kind < 0.7:
             target = "Nowhere %d" % i
         elif kind < 0.8:
@@ -288,6 +288,8 @@ def judge(case, res):
         if exp is None:
             if got["found"]:
                 kind = "missing-title" if not it.get("revision") and it["title"] not in {p["title"] for p in case["wiki"]["pages"]} else "redirect-nowhere-or-circular"
+                if any(o["title"] == it["title"] and o.get("revision") for o in flat_articles(case["metabook"])) and not it.get("revision"):
+                    kind += "+same-title-also-listed-pinned"
                 hits.append(("not-skipped:" + kind, "%s does not exist / leads nowhere, but the archive serves the page %r with text %r"
                              % (name, got.get("page_title"), got.get("text", "")[:80])))
             continue
